@@ -110,7 +110,7 @@ def tpl_table(repo):
 
 def make_table(data):
     return {
-        "fns": {f["path"]: fn_fingerprint(f) for f in data["fns"] if f.get("dk") != "Closure" and "{closure#" not in f["path"]},
+        "fns": {f["path"]: fn_fingerprint(f) for f in data["fns"] if f.get("dk") != "Closure" and not re.search(r"\{closure#\d+\}$", f["path"])},
         "adts": {a["path"]: adt_shape(a) for a in data["adts"]},
     }
 
@@ -379,7 +379,7 @@ def apply(data, al):
     def fix_src(src, lmap):
         out = src
         for n, o in lmap.items():
-            out = re.sub(r"(?<![\w.:])" + re.escape(n) + r"(?![\w(:])", o, out)
+            out = re.sub(r"(?<![\w.:])" + re.escape(n) + r"(?!\w|\(|::)", o, out)
         for n, o in glob_field.items():
             out = re.sub(r"(?<=\.)" + re.escape(n) + r"(?![\w(])", o, out)
         for n, o in fn_last.items():
@@ -495,7 +495,7 @@ def canonicalise(unit_name, data):
     if base is None:
         return None
     cur_adts = {a["path"]: adt_shape(a) for a in data["adts"]}
-    cur_fns = {f["path"]: f for f in reversed(data["fns"]) if f.get("dk") != "Closure" and "{closure#" not in f["path"]}
+    cur_fns = {f["path"]: f for f in reversed(data["fns"]) if f.get("dk") != "Closure" and not re.search(r"\{closure#\d+\}$", f["path"])}
     al = Alias()
     match_adts(base["adts"], cur_adts, al)
     match_fields(base["adts"], cur_adts, al)
